@@ -248,6 +248,10 @@ def epsalg_check(terms_float, value, table, table_in, unit=1.0):
     if not math.isfinite(allow):
         return 'undefined', '', 0.0
     scale = max(unit, abs(float(v)))
+    if allow >= 0.5 * scale:
+        # the first-order rounding bound exceeds the value itself: no digit of the table entry is determined by
+        # the float data ("conditioning-scaled rounding" claims nothing here)
+        return 'unresolved', '', 0.0
     nontrivial = allow < 1e-3 * scale
     if not err <= allow:
         return 'bad', ('after %d terms EpsAlg returned %r, exact table entry eps_%d^(%d) = %r (allowance %.3g)'
